@@ -529,5 +529,23 @@ class BlockNamedLikeSignal(Component):
       s.o2 @= s.inc.out
 
 
+SN8 = mk_bitstruct("SN", {"a": Bits4, "b": Bits4})
+SN4 = mk_bitstruct("SN__a_4", {"b": Bits4})
+
+
+class StructNameCollide(Component):
+  """two bitstruct classes whose generated type names coincide: SN{a:4,b:4} and SN__a_4{b:4} are both SN__a_4__b_4"""
+  def construct(s):
+    s.in_ = InPort(SN8)
+    s.i4 = InPort(SN4)
+    s.out = OutPort(Bits8)
+    s.o4 = OutPort(Bits4)
+
+    @update
+    def up_snc():
+      s.out @= concat(s.in_.a, s.in_.b)
+      s.o4 @= s.i4.b
+
+
 MANGLE = {"MangleIfc": MangleIfc, "MangleList": MangleList, "MangleChild": MangleChild, "MangleStruct": MangleStruct,
-          "MangleChildList": MangleChildList, "MangleWireIfc": MangleWireIfc, "KeywordField": KeywordField, "TmpCollide": TmpCollide, "UnicodeName": UnicodeName, "BlockNamedLikeSignal": BlockNamedLikeSignal}
+          "MangleChildList": MangleChildList, "MangleWireIfc": MangleWireIfc, "KeywordField": KeywordField, "TmpCollide": TmpCollide, "UnicodeName": UnicodeName, "BlockNamedLikeSignal": BlockNamedLikeSignal, "StructNameCollide": StructNameCollide}
